@@ -8,8 +8,16 @@ import TboxModel.Util
 import TboxModel.C04.Model
 open Tbox.Util Tbox.C04
 
-def nSig : Nat := 6
+def nSig : Nat := 12      -- ids accepted in op lines
+def nShow : Nat := 7      -- ids whose disposition is printed (0..5 as before, 6 = SIGRTMAX)
 def nLoop : Nat := 3
+
+/-- position of the id's signal number in ascending order of the numbers
+(-3, 0, SIGKILL 9, SIGUSR1 10, SIGUSR2 12, SIGSTOP 19, 32, RTMIN+1, RTMIN+2, SIGRTMAX 64, 65, INT_MAX):
+`std::set<int>` iterates in that order -/
+def rankOf : Nat → Nat
+  | 0 => 2 | 1 => 3 | 2 => 4 | 3 => 5 | 4 => 7 | 5 => 8 | 6 => 9 | 7 => 10 | 8 => 11 | 9 => 1 | 10 => 0 | 11 => 6
+  | n => n + 12
 
 def showDisp (d : Disp) : String :=
   let k := match d.kind with
@@ -23,7 +31,7 @@ def bitsOf (s : State) : String :=
     if !v.alive then 'x' else if v.enabled then '1' else '0')
 
 def showState (s : State) : String :=
-  "en=" ++ bitsOf s ++ " disp=" ++ "|".intercalate ((List.range nSig).map fun g => showDisp (s.os g))
+  "en=" ++ bitsOf s ++ " disp=" ++ "|".intercalate ((List.range nShow).map fun g => showDisp (s.os g))
 
 def idx? (w : String) (bound : Nat) : Option Nat := do
   let i ← w.toNat?
@@ -33,7 +41,7 @@ def idx? (w : String) (bound : Nat) : Option Nat := do
 def parseSigs (w : String) : Option (List Nat) :=
   if w == "-" then some [] else do
     let l ← (w.splitOn ",").mapM (fun x => idx? x nSig)
-    if l.Pairwise (· < ·) then some l else none
+    if l.Pairwise (fun a b => rankOf a < rankOf b) then some l else none
 
 def parseKind (w : String) : Option (Kind × Bool) :=
   match w.toList with
@@ -47,7 +55,7 @@ def parseKind (w : String) : Option (Kind × Bool) :=
 def parseSigsDot (w : String) : Option (List Nat) :=
   if w == "-" then some [] else do
     let l ← (w.splitOn ".").mapM (fun x => idx? x nSig)
-    if l.Pairwise (· < ·) then some l else none
+    if l.Pairwise (fun a b => rankOf a < rankOf b) then some l else none
 
 def parseAct (w : String) : Option Act :=
   match w.toList with
@@ -91,12 +99,107 @@ def parseOp (s : State) (ord : List Nat) (ws : List String) : Option Op :=
       let (k, si) ← parseKind k
       pure (.setDisp g { kind := k, siginfo := si, flags := (← idx? f 4), mask := (← idx? m 16) })
   | ["raise", g] => do pure (.raise (← idx? g nSig))
+  | ["raisew", g, wf] => do
+      let g ← idx? g nSig
+      let wf ← if wf == "-" then some [] else (wf.splitOn ",").mapM (fun x => idx? x nLoop)
+      if wf.Nodup then pure (.raiseW g wf) else none
   | ["pass", l] => do pure (.pass (← idx? l nLoop) ord)
+  | ["passc", l, cs] => do
+      let l ← idx? l nLoop
+      let cs ← (cs.splitOn ",").mapM fun x =>
+        if x == "x" || x == "e" then some (none : Option Nat) else do
+          let c ← idx? x 11
+          if c ≥ 1 then some (some c) else none
+      if cs.length ≤ 64 then pure (.passC l ord cs) else none
+  | ["cap", b] => if b == "s" then some (.setCap true) else if b == "d" then some (.setCap false) else none
+  | ["init1", e, sg, m] | ["initl", e, sg, m] => do
+      -- the int / initializer_list overloads INSERT into the event's set (after the disable): the resulting set in
+      -- `std::set` order
+      let e ← idx? e s.nEv
+      let sg ← parseSigs sg
+      if ws.head? == some "init1" && sg.length != 1 then none
+      if sg.length > 3 then none
+      let all := (s.evs e).sigs ++ sg.filter (fun g => !(s.evs e).sigs.contains g)
+      let sorted := (List.range nSig).map (fun r => all.filter (fun g => rankOf g == r)) |>.flatten
+      if m == "o" then pure (.init e sorted true) else if m == "p" then pure (.init e sorted false) else none
   | _ => none
+
+/-- run-length groups of equal neighbours -/
+def rle : List String → List (String × Nat)
+  | [] => []
+  | x :: xs =>
+    match rle xs with
+    | (y, n) :: r => if x == y then (y, n + 1) :: r else (x, 1) :: (y, n) :: r
+    | [] => [(x, 1)]
 
 def showCbs (cbs : List Cb) : String :=
   if cbs.isEmpty then "-" else
-  ",".intercalate (cbs.map fun c => toString c.sig ++ ":e" ++ toString c.ev ++ (if c.enabledInCb then "+" else "-"))
+  let toks := cbs.map fun c => toString c.sig ++ ":e" ++ toString c.ev ++ (if c.enabledInCb then "+" else "-")
+  ",".intercalate ((rle toks).map fun (t, n) => if n > 1 then t ++ "*" ++ toString n else t)
+
+/-! the system calls of the critical sections (`M sys=`): P pipe2, B block all signals, A<id> sigaction (x = it fails),
+S restore the mask, Cw Cr close of the pipe — transcribed beside `subscribe` / `unsubscribe` / `subscribeFail` -/
+def sysSub (s : State) (l g : Nat) : List String :=
+  (if s.hasPipe l then [] else ["P"]) ++
+  (if (subsOf s l g).isEmpty then
+     ["B"] ++ (if (fdsOf s g).isEmpty then ["A" ++ toString g ++ (if sigValid g then "" else "x")] else []) ++ ["S"]
+   else [])
+
+/-- the failure path closes the pipe INSIDE the critical section (the scope-exit that restores the mask runs at `return`) -/
+def sysSubFail (s : State) (l g : Nat) : List String :=
+  (if s.hasPipe l then [] else ["P"]) ++ ["B", "A" ++ toString g ++ "x"] ++
+  (if ((s.subs l).erase g).isEmpty then ["Cw", "Cr"] else []) ++ ["S"]
+
+def sysUnsub (s : State) (l g e : Nat) : List String :=
+  if !(del e (subsOf s l g)).isEmpty then [] else
+  ["B"] ++ (if (del l (fdsOf s g)).isEmpty then ["A" ++ toString g] else []) ++ ["S"] ++
+  (if ((s.subs l).erase g).isEmpty then ["Cw", "Cr"] else [])
+
+def sysUnsubAll (s : State) (l e : Nat) : List Nat → List String
+  | [] => []
+  | g :: gs => sysUnsub s l g e ++ sysUnsubAll (unsubscribe s l g e) l e gs
+
+def sysSubAll (s : State) (l e : Nat) : List Nat → List String
+  | [] => []
+  | g :: gs => if subscribeFails s l g then sysSubFail s l g else sysSub s l g ++ sysSubAll (subscribe s l g e) l e gs
+
+def sysDisable (s : State) (e : Nat) : List String :=
+  let v := s.evs e
+  if v.alive && v.enabled then sysUnsubAll s v.loop e v.sigs else []
+
+def sysEnable (s : State) (e : Nat) : List String :=
+  let v := s.evs e
+  if !v.alive || !v.inited then [] else
+  let r := subscribeAllF s v.loop e v.sigs
+  sysSubAll s v.loop e v.sigs ++ (if !r.2.2 && !v.enabled then sysUnsubAll r.1 v.loop e r.2.1 else [])
+
+def showSys (t : List String) : String := if t.isEmpty then "-" else ",".intercalate t
+
+/-- the handler's writes of one delivery, by loop -/
+def showWr (s : State) (g : Nat) (wf : List Nat) : String :=
+  if (s.os g).kind != .tbox then "-" else
+  let ls := (List.range nLoop).filter fun l => (fdsOf s g).contains l
+  if ls.isEmpty then "-" else
+  let errs := ["EAGAIN", "EINTR", "EIO", "EPIPE"]
+  let inj := (List.range nLoop).filter fun l => wf.contains l       -- ascending, as the harness assigns the errnos
+  ",".intercalate (ls.map fun l =>
+    "l" ++ toString l ++ ":" ++
+      (match inj.idxOf? l with
+       | some k => errs.getD ((k + g) % 4) "ERR"
+       | none => if (s.pipe l).length < capOf s then "ok" else "EAGAIN"))
+
+/-- the same state with the pipes of the loops the driver uses evaluated once (the model keeps them as a function that
+grows by one closure per step; without this a burst of n deliveries costs n^3) -/
+def normPipe (s : State) : State :=
+  let p0 := s.pipe 0
+  let p1 := s.pipe 1
+  let p2 := s.pipe 2
+  { s with pipe := fun l => if l = 0 then p0 else if l = 1 then p1 else if l = 2 then p2 else [] }
+
+def raisesN (s : State) (g : Nat) : Nat → State
+  | 0 => s
+  | n + 1 => raisesN (normPipe (raise s g).1) g n
+
 
 def showOrd (ord : List Nat) : String :=
   if ord.isEmpty then "-" else ",".intercalate (ord.map fun e => "e" ++ toString e)
@@ -127,18 +230,34 @@ def tagsOf (s s' : State) (op : Op) : List String :=
       match (s.os g).kind with
       | .dfl => ["raise-dfl"] | .ign => ["raise-ign"] | .handler _ => ["raise-user"]
       | .tbox => [match (ctxOf s g).old.kind with | .handler _ => "raise-chain" | _ => "raise-nochain",
-                  "fan" ++ toString (fdsOf s g).length]
+                  "fan" ++ toString (fdsOf s g).length] ++
+                 (if (fdsOf s g).any fun l => (s.pipe l).length ≥ capOf s then ["raise-overflow"] else [])
   | .pass l _ =>
       let n := s'.cbs.length - s.cbs.length
       let live := ((s.pipe l).foldl (fun acc g => acc + (subsOf s l g).length) 0)
       let scripted := (s'.cbs.take n).any fun c => !(s.evs c.ev).script.isEmpty
       dc ++ (if (s.pipe l).isEmpty then ["pass-empty"] else
         (if scripted then ["cb-script"] else []) ++
+        (if (s'.cbs.take n).any (fun c => !(s.evs c.ev).script.all (fun a => match a with
+            | .enable j | .disable j | .destroy j | .init j _ _ => (s.evs j).loop == l)) then ["cb-cross-loop"] else []) ++
+        (if (s.pipe l).length ≥ capOf s then ["pass-full-pipe"] else []) ++
         (if n < live then ["cb-skipped-or-lost"] else []) ++ (if n > live then ["cb-extra"] else []) ++
         (if (s.pipe l).length ≥ 2 then ["pass-items>1"] else []) ++
         (if n = 0 then ["pass-stale"] else if n = 1 then ["pass-cb1"] else ["pass-cbN"]) ++
         (if (s'.cbs.take n).any (·.oneshot) then ["oneshot-fired"] else []) ++
         (if (s.pipe l).length > 10 then ["pass-chunk>10"] else []))
+  | .raiseW g wf =>
+      if (s.os g).kind = .tbox then
+        ["raisew"] ++ (if (fdsOf s g).any fun l => wf.contains l then ["write-fail"] else []) ++
+        (if (fdsOf s g).any fun l => !wf.contains l then ["write-ok"] else [])
+      else ["raisew-idle"]
+  | .passC l _ cs =>
+      let n := s'.cbs.length - s.cbs.length
+      dc ++ (if (s.pipe l).isEmpty then ["passc-empty"] else
+        (if cs.any (·.isNone) then ["read-error"] else []) ++ (if cs.any (fun c => c.isSome && c != some 10) then ["read-short"] else []) ++
+        (if s'.hasPipe l && !(s'.pipe l).isEmpty then ["passc-left-pending"] else []) ++
+        (if n = 0 then ["pass-stale"] else if n = 1 then ["pass-cb1"] else ["pass-cbN"]))
+  | .setCap _ => ["cap"]
   | .setDisp g _ => if (s.os g).kind = .tbox then ["sa-refused"] else if !sigValid g then ["sa-einval"] else ["sa"]
   | .init e _ _ => dc ++ (if (s.evs e).enabled then ["reinit-enabled"] else if (s.evs e).inited then ["reinit"] else ["init"])
   | .newEv _ sc => if sc.isEmpty then [] else ["new-script"]
@@ -149,14 +268,31 @@ def stepLine (s : State) (line : String) (ord : List Nat) : State × List String
   match ws with
   | [] => (s, [])
   | ["eng", e] => if e == "e" || e == "s" then (s, ["P eng"]) else (s, ["bad-op"])
+  | ["burst", g, n] =>
+    -- n deliveries in a row (n `raise` ops); the writes of the first and of the last one are shown
+    match idx? g nSig, idx? n 40001 with
+    | some g, some n =>
+      if n = 0 then (s, ["bad-op"]) else
+      let sLast := raisesN s g (n - 1)
+      let s' := normPipe (raise sLast g).1
+      let o := match (raise s g).2 with | .killed => "killed" | .ignored => "ignored" | .handled => "handled"
+      let wr := if n = 1 then showWr s g [] else showWr s g [] ++ "/" ++ showWr sLast g []
+      let tags := (if (s.os g).kind = .tbox then ["burst"] else ["burst-idle"]) ++
+        (if (fdsOf s g).any fun l => (s'.pipe l).length ≥ capOf s then ["raise-overflow", "burst-overflow"] else [])
+      (s', ["B " ++ " ".intercalate tags,
+            "P burst " ++ o ++ " ncalls=" ++ toString (s'.calls.length - s.calls.length) ++ " " ++ showState s', "M wr=" ++ wr])
+    | _, _ => (s, ["bad-op"])
   | _ =>
     match parseOp s ord ws with
     | none => (s, ["bad-op"])
     | some op =>
       if !valid s op then (s, ["bad-op"]) else
-      let s' := step repaired s op
+      let s' := normPipe (step repaired s op)
       let tags := tagsOf s s' op
       let b := if tags.isEmpty then [] else ["B " ++ " ".intercalate tags]
+      match op with
+      | .setCap _ => (s', b ++ ["P cap"])
+      | _ =>
       let body := match op with
         | .newEv _ _ => "ret=1"
         | .init e sg o => "ret=" ++ (if (initEv repaired s e sg o).2 then "1" else "0")
@@ -164,17 +300,28 @@ def stepLine (s : State) (line : String) (ord : List Nat) : State × List String
         | .disable e => "ret=" ++ (if (disable s e).2 then "1" else "0")
         | .destroy e => "ret=" ++ (if (destroy s e).2 then "1" else "0")
         | .setDisp g d => "ret=" ++ (if (setDisp s g d).2 then "1" else "0")
-        | .raise g =>
+        | .raise g | .raiseW g _ =>
             let o := match (raise s g).2 with | .killed => "killed" | .ignored => "ignored" | .handled => "handled"
             "raise " ++ o ++ " calls=" ++ showCalls ((s'.calls.take (s'.calls.length - s.calls.length)).reverse)
-        | .pass _ _ => "pass ord=" ++ showOrd ord ++ " cbs=" ++ showCbs ((s'.cbs.take (s'.cbs.length - s.cbs.length)).reverse) ++ " thr=ok"
-      (s', b ++ ["P " ++ body ++ " " ++ showState s'])
+        | .pass _ _ | .passC _ _ _ =>
+            "pass ord=" ++ showOrd ord ++ " cbs=" ++ showCbs ((s'.cbs.take (s'.cbs.length - s.cbs.length)).reverse) ++ " thr=ok"
+        | .setCap _ => "cap"
+      let m := match op with
+        | .init e _ _ => ["M sys=" ++ showSys (sysDisable s e)]
+        | .enable e => ["M sys=" ++ showSys (sysEnable s e)]
+        | .disable e | .destroy e => ["M sys=" ++ showSys (sysDisable s e)]
+        | .raise g => ["M wr=" ++ showWr s g []]
+        | .raiseW g wf => ["M wr=" ++ showWr s g wf]
+        | .pass _ _ | .passC _ _ _ => ["M cs=ok"]
+        | _ => []
+      (s', b ++ ["P " ++ body ++ " " ++ showState s'] ++ m)
 
 structure TAcc where
   s : State := init
   tl : List String := []
   tags : List String := []
   err : Option String := none
+  merr : Option String := none     -- first mismatch on an `M` line (model-internal observable): the run goes on
   nops : Nat := 0
 
 /-- the oracle of a pass: the `ord=` field of the implementation's next line -/
@@ -190,13 +337,17 @@ def stepOp (a : TAcc) (line : String) : TAcc :=
   let (s', outs) := stepLine a.s line ord
   let tags := (outs.filter (·.startsWith "B ")).flatMap fun l => words (l.drop 2).toString
   let want := outs.filter (fun l => !l.startsWith "B ")
-  let rec cmp (want tl : List String) : Option String × List String :=
+  let rec cmp (want tl : List String) (merr : Option String) : Option String × Option String × List String :=
     match want, tl with
-    | [], tl => (none, tl)
-    | w :: ws, l :: ls => if w == l then cmp ws ls else (some s!"op#{a.nops} [{line.trimAscii}]: impl=[{l}] model=[{w}]", ls)
-    | w :: _, [] => (some s!"op#{a.nops} [{line.trimAscii}]: impl=<missing> model=[{w}]", [])
-  let (err, rest) := cmp want a.tl
-  { a with s := s', tl := rest, tags := a.tags ++ tags, err := err }
+    | [], tl => (none, merr, tl)
+    | w :: ws, l :: ls =>
+      if w == l then cmp ws ls merr
+      else if w.startsWith "M " && l.startsWith "M " then
+        cmp ws ls (merr.orElse fun _ => some s!"op#{a.nops} [{line.trimAscii}]: impl=[{l}] model=[{w}]")
+      else (some s!"op#{a.nops} [{line.trimAscii}]: impl=[{l}] model=[{w}]", merr, ls)
+    | w :: _, [] => (some s!"op#{a.nops} [{line.trimAscii}]: impl=<missing> model=[{w}]", merr, [])
+  let (err, merr, rest) := cmp want a.tl a.merr
+  { a with s := s', tl := rest, tags := a.tags ++ tags, err := err, merr := merr }
 
 structure DS where
   ops : Array String := #[]
@@ -208,6 +359,9 @@ def finish (d : DS) : List String :=
   match a.err with
   | some e => tagsLine ++ ["reject " ++ e]
   | none =>
+    match a.merr with
+    | some e => tagsLine ++ ["reject M: " ++ e]
+    | none =>
     match a.tl with
     | [] => tagsLine ++ [s!"ok ops={a.nops} callbacks={a.s.cbs.length}"]
     | l :: _ => tagsLine ++ ["reject unexpected extra implementation output: [" ++ l ++ "]"]
